@@ -135,18 +135,11 @@ func astProgram(p *parser.Program) string {
 	return "(" + strings.Join(parts, " ") + ")"
 }
 
-// c16ModelStrict selects which compiler model the real compiler is compared
-// with: false = compiler.go as it is on the unchanged tree (silent default
-// case), true = compile_fixed (after proposed_fixes/C16-unsupported-node-error.diff
-// is applied; then also replace C16_compile_rejects_unsupported_refuted by the
-// theorem for `compile`).
-const c16ModelStrict = false
-
 // c16ModelBytes compares the Compile.v model with the real compiler: bytes,
 // constants, GlobalCount, LocalCount (or the error class).
 func c16ModelBytes(src string, c c17Compiled, in map[string]any, r *Result, model *Model) {
 	ast := astProgram(c.prog)
-	ans, err := model.Ask(fmt.Sprintf("(compile %v %s)", c16ModelStrict, ast))
+	ans, err := model.Ask("(compile true " + ast + ")") // the model in force mirrors HEAD (strict)
 	if err != nil {
 		r.Violate(Violation{Kind: "correspondence", Key: "model-crash", Detail: err.Error(), Input: in})
 		return
@@ -160,6 +153,9 @@ func c16ModelBytes(src string, c c17Compiled, in map[string]any, r *Result, mode
 	if mx.L[0].S == "err" {
 		if c.CompileErr == "" {
 			r.Violate(Violation{Kind: "correspondence", Key: "compile-model-differs", Detail: "model: error " + mx.L[1].S + ", Go: compiled", Input: in})
+		} else if mx.L[1].S != c.CompileErrClass {
+			r.Violate(Violation{Kind: "correspondence", Key: "compile-model-differs",
+				Detail: "compile errors of different classes: model " + mx.L[1].S + ", Go " + c.CompileErrClass + " (" + c.CompileErr + ")", Input: in})
 		}
 		return
 	}
